@@ -864,6 +864,12 @@ func unop(instr *ssa.UnOp, x value) value {
 	}
 	switch instr.Op {
 	case token.ARROW: // receive
+		if inSession() {
+			if cap(x.(chan value)) == 0 {
+				panic(pathUnsupported{"receive on an unbuffered channel inside a scheduling session"})
+			}
+			syncPointOp(&schedOp{kind: "recv", ch: x.(chan value)})
+		}
 		v, ok := <-x.(chan value)
 		if !ok {
 			v = zero(instr.X.Type().Underlying().(*types.Chan).Elem())
